@@ -634,11 +634,32 @@ func (b *Bounds) linOf(v ssa.Value, d int) Lin {
 		if w, ok := b.resolveLoad(x); ok {
 			return b.linOf(w, d+1)
 		}
+		if x.Op == token.MUL {
+			if fa, ok := x.X.(*ssa.FieldAddr); ok {
+				if al, ok := fa.X.(*ssa.Alloc); ok {
+					if _, _, isInt := intRangeOfType(x.Type()); isInt {
+						none := func(ssa.Value) string { return "" }
+						if a := StructFieldOfAlloc(al, fa.Field, none, b.callers, 0); a.OK && len(nonzero(a.Terms)) == 0 {
+							return LinConst(a.C)
+						}
+					}
+				}
+			}
+		}
 		if k, ok := b.fieldLoadKey(x.Parent(), x); ok {
 			return LinTerm(Term{K: k})
 		}
 		if w, ok := b.localFieldStore(x); ok {
 			return b.linOf(w, d+1)
+		}
+	case *ssa.Field:
+		// an integer field of an immutable carrier struct that evaluates to a constant (built by a
+		// library function from constants; by-value parameters: the same constant at every caller)
+		if _, _, isInt := intRangeOfType(x.Type()); isInt {
+			none := func(ssa.Value) string { return "" }
+			if a := StructFieldAffine(x.X, x.Field, none, b.callers, 0); a.OK && len(nonzero(a.Terms)) == 0 {
+				return LinConst(a.C)
+			}
 		}
 	}
 	return LinTerm(Term{K: termKey(v)})
@@ -921,6 +942,9 @@ func (b *Bounds) typeBounds(t Term) (lo, hi int64) {
 				lo, hi = l, h
 			}
 		}
+		if l, h, ok := b.tableScalarBounds(k); ok {
+			lo, hi = l, h
+		}
 		if u, ok := k.(*ssa.UnOp); ok && u.Op == token.MUL {
 			if fa, ok := u.X.(*ssa.FieldAddr); ok {
 				if al, ok := fa.X.(*ssa.Alloc); ok {
@@ -1069,6 +1093,48 @@ func phiBound(phi *ssa.Phi, lower bool) (int64, bool) {
 		}
 	}
 	return bound, seen
+}
+
+// tableScalarBounds: v is the integer looked up (plain or comma-ok) in a package-level map with
+// integer values that is initialised by a constant composite literal and never written afterwards:
+// its range over all entries and the zero value for a missing key.
+func (b *Bounds) tableScalarBounds(v ssa.Value) (lo, hi int64, ok bool) {
+	if ex, isEx := v.(*ssa.Extract); isEx {
+		if ex.Index != 0 {
+			return 0, 0, false
+		}
+		v = ex.Tuple
+	}
+	lk, isL := v.(*ssa.Lookup)
+	if !isL {
+		return 0, 0, false
+	}
+	ld, isU := lk.X.(*ssa.UnOp)
+	if !isU {
+		return 0, 0, false
+	}
+	g, isG := ld.X.(*ssa.Global)
+	if !isG || g.Pkg == nil || len(b.P.GlobalWrites(g)) > 0 {
+		return 0, 0, false
+	}
+	tab, err := b.P.GlobalTable(ShortPkg(g.Pkg.Pkg.Path()), g.Name())
+	if err != nil || tab.Scalar == nil {
+		return 0, 0, false
+	}
+	lo, hi = 0, 0
+	for _, k := range tab.Keys {
+		x, ok := tab.Int(k, "")
+		if !ok {
+			return 0, 0, false
+		}
+		if x < lo {
+			lo = x
+		}
+		if x > hi {
+			hi = x
+		}
+	}
+	return lo, hi, true
 }
 
 // tableFieldBounds: v is field f of the value looked up in a package-level map that is initialised
@@ -1367,6 +1433,22 @@ func (b *Bounds) callFacts(c *ssa.Call, at *ssa.BasicBlock, sameBlock bool) []Fa
 	if bi, ok := c.Call.Value.(*ssa.Builtin); ok && bi.Name() == "copy" && len(c.Call.Args) == 2 {
 		n := LinTerm(Term{K: callRes{c, 0}})
 		return []Fact{{L: n, Why: "copy result"}, {L: b.LenOf(c.Call.Args[0]).Add(n, -1), Why: "copy result"}, {L: b.LenOf(c.Call.Args[1]).Add(n, -1), Why: "copy result"}}
+	}
+	// r := min(a, b, ...): r <= each argument; r := max(...): r >= each argument (the other
+	// direction is a case split, see minMaxOfGoal)
+	if bi, ok := c.Call.Value.(*ssa.Builtin); ok && (bi.Name() == "min" || bi.Name() == "max") && len(c.Call.Args) >= 1 {
+		if _, _, isInt := intRangeOfType(c.Type()); isInt {
+			rl := LinTerm(Term{K: callRes{c, 0}})
+			var out []Fact
+			for _, a := range c.Call.Args {
+				if bi.Name() == "min" {
+					out = append(out, Fact{L: b.LinOf(a).Add(rl, -1), Why: "min result"})
+				} else {
+					out = append(out, Fact{L: rl.Add(b.LinOf(a), -1), Why: "max result"})
+				}
+			}
+			return out
+		}
 	}
 	callee := c.Call.StaticCallee()
 	if callee == nil || !InLib(callee) || len(callee.Blocks) == 0 {
@@ -2132,6 +2214,9 @@ func (b *Bounds) SummaryFor(fn *ssa.Function, consts map[int]int64) *Summary {
 			if all && hi != NegInf && hi != PosInf {
 				rt := LinTerm(Term{K: fieldKey{Base: slot{I: k, Res: true}, Path: ".*"}, Len: true})
 				addCand(LinConst(hi).Add(rt, -1))
+				if lo != PosInf && lo != NegInf && lo > 0 {
+					addCand(rt.Add(LinConst(lo), -1))
+				}
 			}
 		}
 		// validate every candidate in every context
@@ -2501,6 +2586,40 @@ func phiOfGoal(goal Lin, facts []Fact, tried map[*ssa.Phi]bool) (*ssa.Phi, bool)
 	return best, best != nil
 }
 
+// minMaxOfGoal: a call of the builtin min/max on integers whose result occurs in the goal (or in a
+// fact that shares an atom with the goal).
+func minMaxOfGoal(goal Lin, facts []Fact) *ssa.Call {
+	find := func(l Lin) *ssa.Call {
+		for t := range l.T {
+			if cr, ok := t.K.(callRes); ok {
+				if call, ok := cr.C.(*ssa.Call); ok {
+					if bi, ok := call.Call.Value.(*ssa.Builtin); ok && (bi.Name() == "min" || bi.Name() == "max" || (bi.Name() == "copy" && len(call.Call.Args) == 2)) {
+						return call
+					}
+				}
+			}
+		}
+		return nil
+	}
+	if c := find(goal); c != nil {
+		return c
+	}
+	for _, f := range facts {
+		shares := false
+		for t := range f.L.T {
+			if _, ok := goal.T[t]; ok {
+				shares = true
+			}
+		}
+		if shares {
+			if c := find(f.L); c != nil {
+				return c
+			}
+		}
+	}
+	return nil
+}
+
 // loopHeaderOfGoal: the innermost loop header that is blk or dominates it and one of whose phis
 // occurs in the goal.
 func loopHeaderOfGoal(goal Lin, blk *ssa.BasicBlock) *ssa.BasicBlock {
@@ -2564,6 +2683,45 @@ func (b *Bounds) proveAt(blk *ssa.BasicBlock, idx int, goal Lin, extra []Fact, h
 			return Proof{OK: true, How: "local"}
 		}
 		return Proof{Trail: trail}
+	}
+	// min/max of integers: the result equals one of the arguments
+	if splits < 4 {
+		if mm := minMaxOfGoal(goal, facts); mm != nil {
+			rt := Term{K: callRes{mm, 0}}
+			all := true
+			isCopy := mm.Call.Value.(*ssa.Builtin).Name() == "copy"
+			argForm := func(a ssa.Value) Lin {
+				if isCopy {
+					return b.LenOf(a) // copy(dst, src) = min(len(dst), len(src))
+				}
+				return b.LinOf(a)
+			}
+			for _, a := range mm.Call.Args {
+				cx := pathCtx{subst: map[Term]Lin{rt: argForm(a)}}
+				var ex []Fact
+				for _, f := range facts {
+					ex = append(ex, Fact{L: cx.applyOnce(f.L), Why: f.Why, Neq: f.Neq})
+				}
+				// in this case the chosen argument is the extremum
+				for _, o := range mm.Call.Args {
+					if o == a {
+						continue
+					}
+					if mm.Call.Value.(*ssa.Builtin).Name() != "max" {
+						ex = append(ex, Fact{L: argForm(o).Add(argForm(a), -1), Why: "min case"})
+					} else {
+						ex = append(ex, Fact{L: argForm(a).Add(argForm(o), -1), Why: "max case"})
+					}
+				}
+				if pr := b.proveAt(blk, idx, cx.applyOnce(goal), ex, hops, splits+1, seen); !pr.OK {
+					all = false
+					break
+				}
+			}
+			if all {
+				return Proof{OK: true, How: "local"}
+			}
+		}
 	}
 	// induction over a loop: the goal mentions phis of a loop header that dominates this point and
 	// otherwise only quantities that do not change inside the loop; it holds here if it holds on
